@@ -894,6 +894,36 @@ func (h *hist) heavyRun(k int) {
 		h.x.note("shape heavy-accepted: %d x %d bytes, below the limit", below, size)
 		h.x.AddSet(kind, h.x.Tip, set)
 	}
+	// the pool now outweighs one block several times over.  A SMALL child of the last heavy transaction
+	// (and a grandchild) straddles the assembler's cut: the first heavy one fits into a block, the
+	// second does not, the small descendants further down would -- a block must not contain them
+	// without their parents (coreutils.MineBlock has to stop at the first transaction that does not fit)
+	{
+		pool := h.x.p2
+		if !v2 {
+			pool = h.x.p1
+		}
+		for i := len(pool) - 1; i >= 0; i-- {
+			last := h.s.Tx(pool[i])
+			if last.Shape != "fat" || len(last.Outs) == 0 || !spendable(last, 0) || h.pooledInputs()[last.Outs[0]] {
+				continue
+			}
+			child := h.newTx(h.tipLedger(), v2, []types.SiacoinElement{outElem(last, 0)}, 2)
+			set := []Inst{}
+			for _, n := range pool[:i+1] {
+				set = append(set, Inst{T: n}) // the pooled ancestors (known), then the new child
+			}
+			set = append(set, Inst{T: child.Name})
+			if spendable(child, 0) && h.rng.Intn(2) == 0 {
+				set = append(set, Inst{T: h.newTx(h.tipLedger(), v2, []types.SiacoinElement{outElem(child, 0)}, 1).Name})
+			}
+			h.x.Res.Count("set_small-child-of-heavy", 1)
+			h.x.note("shape small child of a heavy pooled transaction (straddles the block weight cut)")
+			h.x.AddSet(kind, h.x.Tip, set)
+			h.x.MineStep()
+			break
+		}
+	}
 	// another rejected heavy set against the now nearly full pool: still nothing may be evicted
 	rejectedHeavy(2 + h.rng.Intn(3))
 	// 4. ... and two more accepted ones reach the limit: now (and only now) the pool may evict
